@@ -14,7 +14,9 @@ INFO = {
             "arbitrary integer tables (model equality + well-formedness + re-evaluation only); both ignore_point_anomalies settings; "
             "non-trivial = at least one reported anomaly; distinct by hash of the full input",
     "trusted_base": ["Coq 8.16.1 kernel + vm_compute", "harness/c03.py + table_scorers.py",
-                     "Model/Capa.v is hand-written: tied to mvcapa.py / capa.py by model = implementation on every case"],
+                     "Model/Capa.v is hand-written: tied to mvcapa.py / capa.py by model = implementation on every case",
+                     "primitive floats (PrimFloat) under vm_compute for the binary64 streams; Flocq 4.1 for the binary64 theorems; the standard library's FloatAxioms / Uint63 axioms",
+                     "binary64 twin l2_saving_F (Check/FloatSavingCheck.v): hand-written, tied bit for bit to L2Saving.evaluate (C06) and to CAPA's scores from the data"],
     "assumptions": ["|table values| < 2^40 so the implementation's float64 arithmetic is exact",
                     "CAPA's zero per-component penalty vector np.zeros(1) is modelled as a zero vector of length p (same branch, same value)"],
 }
